@@ -88,6 +88,27 @@ def check_bary_conformity(space, fail, name, kind):
     return n
 
 
+def check_dual1_attachment(api, grid, ob, sp, S, fail):
+    """The k-th DUAL1 function belongs to the k-th selected element: 1 at its barycentre, 0 at every other barycentre."""
+    bg = sp.grid
+    D = sp.dof_transformation.tocsr()
+    cent = grid.centroids
+    corner_pts = np.array([[0.0, 1.0, 0.0], [0.0, 0.0, 1.0]])
+    for b in np.flatnonzero(sp.support):
+        p = int(b) // 6
+        vals = None
+        for q in range(3):
+            x = bg.vertices[:, bg.elements[q, b]]
+            if np.abs(x - cent[p]).max() < 1e-12:
+                vals = vals if vals is not None else bary_values(sp, int(b), corner_pts, D)
+                for k, e in enumerate(S):
+                    got = float(vals[k][0, q]) if k in vals else 0.0
+                    want = 1.0 if e == p else 0.0
+                    if abs(got - want) > 1e-9:
+                        fail("dual1_attachment", "DUAL1 dof %d (element %d of the selection) takes %.4g at the barycentre of element %d" % (k, e, got, p))
+                        return
+
+
 def check_dual_for_obligation(api, chk, ob, grid, sig_of):
     kind = ob["kind"]
     req = ob["req"]
@@ -120,6 +141,7 @@ def check_dual_for_obligation(api, chk, ob, grid, sig_of):
                 fail("dof_count", "DUAL1 has %d dofs, %d elements selected" % (sp.global_dof_count, req["ndofs"]))
             if whole_closed:
                 check_bary_partition(sp, S, fail, "DUAL1")
+            check_dual1_attachment(api, grid, ob2, sp, S, fail)
     elif kind == "RWG" and req["manifold"]:
         for k in ("BC", "RBC"):
             sig = sig_of(ob, k)
